@@ -23,5 +23,9 @@ try:
 finally:
     subprocess.run(["git", "-C", "/repo", "checkout", "--", "."])
 out = os.path.join(d, f"{v}.trial.{tier}.json")
+if os.path.exists(out):
+    old = json.load(open(out))
+    old.update(res)
+    res = old
 json.dump(res, open(out, "w"), indent=1)
 print("detected by:", [k for k, x in res.items() if x["rc"] == 1])
